@@ -1178,6 +1178,7 @@ func (d *Data) GetKeys(ctx storage.VersionedCtx) (out []string, err error) {
 		}
 		mdb.mu.RUnlock()
 	} else {
+		out = []string{} // like the in-memory path: no keys is an empty list, not null
 		process_func := func(key string) {
 			out = append(out, key)
 		}
